@@ -183,9 +183,28 @@ pub fn install_static_faults(net: &SimNet, faults: &[Value]) {
 
 /// Callback used by the fault driver for faults that need scenario knowledge.
 pub type KillFn = Arc<dyn Fn(usize, bool) + Send + Sync>;
+/// Called (from a harness task, `CURRENT_NODE` = 0) when a killed node is to come back.
+pub type RestartFn = Arc<dyn Fn(usize) + Send + Sync>;
+
+/// Give some of the plan's kills a restart (independent stream of the seed): the host comes back
+/// after `restart_after_ms` with the same identity and listen address and no memory.
+pub fn add_restarts(seed: u64, faults: &mut [Value]) {
+    let mut rng = Rng::fork(seed, "restart-faults");
+    for f in faults.iter_mut() {
+        if f["kind"] == "kill" && rng.chance(1, 2) {
+            let d = *rng.pick(&[10u64, 500, 3000, 15_000]);
+            f["restart_after_ms"] = json!(d);
+            f["heal_after_ms"] = json!(d);
+        }
+    }
+}
 
 /// Spawn the task executing the time-based faults of the plan.
 pub fn spawn_fault_driver(handle: &Handle, net: &SimNet, faults: &[Value], on_kill: Option<KillFn>) {
+    spawn_fault_driver_ex(handle, net, faults, on_kill, None)
+}
+
+pub fn spawn_fault_driver_ex(handle: &Handle, net: &SimNet, faults: &[Value], on_kill: Option<KillFn>, on_restart: Option<RestartFn>) {
     let mut timed: Vec<Value> = faults.iter().filter(|f| f.get("at_ms").is_some() && !matches!(f["kind"].as_str(), Some("byte_reset") | Some("byte_eof"))).cloned().collect();
     // heals are separate timed events
     let mut extra = Vec::new();
@@ -223,6 +242,14 @@ pub fn spawn_fault_driver(handle: &Handle, net: &SimNet, faults: &[Value], on_ki
                     }
                     net.host_down(node_ip(node), vanish);
                     h.kill_node(node);
+                    if let (Some(ms), Some(r)) = (f["restart_after_ms"].as_u64(), on_restart.clone()) {
+                        let net = net.clone();
+                        h.spawn(0, "restart", async move {
+                            tokio::time::sleep(Duration::from_millis(ms)).await;
+                            net.host_up(node_ip(node));
+                            r(node);
+                        });
+                    }
                 }
                 "freeze" => {
                     h.freeze_node(f["node"].as_u64().unwrap_or(1) as usize, Duration::from_millis(f["heal_after_ms"].as_u64().unwrap_or(1000)));
